@@ -359,3 +359,59 @@ async fn run(plan: Plan) -> Outcome {
     judge_events(&mut out);
     out
 }
+
+/// C19 on the real tokio driver: the wait between a failed attempt and the next one is the back-off period even when user
+/// operations keep arriving during the wait (each of them wakes the loop).  Virtual time, frozen std clock.
+pub fn backoff_probe() -> Vec<(String, String)> {
+    crate::vclock::set(Some(1_000_000_000));
+    let runtime = tokio::runtime::Builder::new_current_thread().enable_all().start_paused(true).build().unwrap();
+    let problems = runtime.block_on(async move {
+        let mut problems: Vec<(String, String)> = Vec::new();
+        let factory: Box<dyn Fn() -> Pin<Box<dyn Future<Output = GneissResult<TStream>> + Send>> + Send + Sync> = Box::new(move || Box::pin(async move { Err(GneissError::new_other_error("scripted connection refusal")) }));
+        let period = Duration::from_millis(200);
+        let mut client_builder = MqttClientOptions::builder();
+        client_builder.with_connect_timeout(Duration::from_secs(3600));
+        client_builder.with_base_reconnect_period(period);
+        client_builder.with_max_reconnect_period(Duration::from_secs(1));
+        client_builder.with_reconnect_period_jitter(ExponentialBackoffJitterType::None);
+        let mut connect_builder = ConnectOptions::builder();
+        connect_builder.with_keep_alive_interval_seconds(Some(0));
+        let tokio_options = TokioOptions::builder(tokio::runtime::Handle::current()).build();
+        let client = new_tokio_client(client_builder.build(), connect_builder.build(), tokio_options, factory);
+        let events: Arc<Mutex<Vec<(String, tokio::time::Instant)>>> = Arc::new(Mutex::new(Vec::new()));
+        let ev2 = events.clone();
+        let listener: Arc<ClientEventListenerCallback> = Arc::new(move |event: Arc<ClientEvent>| {
+            let name = match &*event { ClientEvent::ConnectionAttempt(_) => "Attempt", ClientEvent::ConnectionFailure(_) => "Failure", _ => "Other" };
+            ev2.lock().unwrap().push((name.to_string(), tokio::time::Instant::now()));
+        });
+        if client.start(Some(listener)).is_err() { return vec![("MACHINERY".to_string(), "start failed".to_string())]; }
+        let step = Duration::from_millis(20);
+        // waits expected: 200 ms, 400 ms, 800 ms; a user operation lands every 20 ms of virtual time
+        for _ in 0..400 {
+            for _ in 0..20 { tokio::task::yield_now().await; }
+            let attempts = events.lock().unwrap().iter().filter(|(n, _)| n == "Attempt").count();
+            if attempts >= 4 { break; }
+            let future = client.publish(PublishPacket::builder("t".to_string(), QualityOfService::AtMostOnce).build(), None);
+            tokio::spawn(async move { let _ = future.await; });
+            tokio::time::advance(step).await;
+        }
+        let list = events.lock().unwrap().clone();
+        let mut last_failure: Option<tokio::time::Instant> = None; let mut k = 0u32;
+        for (name, at) in &list {
+            if name == "Failure" { last_failure = Some(*at); }
+            if name == "Attempt" { if let Some(f) = last_failure.take() {
+                let waited = at.duration_since(f); let expected = period * 2u32.pow(k).min(5); k += 1;
+                if waited > expected + step * 2 { problems.push(("C19:tokio: reconnect wait exceeds the back-off period while user operations arrive".to_string(), format!("wait before retry {}: {:?}, back-off period {:?} (a publish was submitted every {:?})", k, waited, expected, step))); }
+                if waited + step * 2 < expected { problems.push(("C19:tokio: reconnect wait shorter than the back-off period".to_string(), format!("wait before retry {}: {:?}, back-off period {:?}", k, waited, expected))); }
+            } }
+        }
+        let attempts = list.iter().filter(|(n, _)| n == "Attempt").count();
+        if attempts < 4 { problems.push(("C19:tokio: reconnect wait exceeds the back-off period while user operations arrive".to_string(), format!("only {} attempts in 8 s of virtual time with a publish submitted every {:?}; events {:?}", attempts, step, list.iter().map(|(n, _)| n.clone()).collect::<Vec<_>>()))); }
+        let _ = client.close();
+        for _ in 0..50 { tokio::task::yield_now().await; }
+        problems
+    });
+    drop(runtime);
+    crate::vclock::set(None);
+    problems
+}
